@@ -175,12 +175,15 @@ func writeBatchSlices(w *bufio.Writer, s *vt.Sched, tag string) int {
 			wgcOf[ev.Val] = ev.Obj
 		}
 	}
+	capOf := map[int]string{} // wgc object -> capacity of the batch's stream (as made by the library)
 	for _, ev := range s.Log {
 		switch ev.Kind {
 		case "batch:resp":
 			respOf[ev.Obj] = wgcOf[ev.Val]
 		case "batch:chan":
 			chanOf[ev.Obj] = wgcOf[ev.Val]
+		case "batch:cap":
+			capOf[ev.Obj] = ev.Val
 		}
 	}
 	lines := map[int][]string{}
@@ -201,7 +204,11 @@ func writeBatchSlices(w *bufio.Writer, s *vt.Sched, tag string) int {
 		switch {
 		case ev.Kind == "add" && fn == "NewWgCounter":
 			size[ev.Owner] = ev.Val
-			emit(ev.Owner, "bnew "+ev.Val)
+			c, ok := capOf[ev.Owner]
+			if !ok {
+				c = ev.Val // a batch of a plain worker has no stream
+			}
+			emit(ev.Owner, "bnew "+ev.Val+" "+c)
 		case ev.Kind == "wgadd" && fn == "NewWgCounter":
 			// part of bnew
 		case ev.Kind == "load" && fn == "WgCounter.Done":
@@ -381,8 +388,23 @@ func projectDisp(s *vt.Sched, j int, qid string) ([]string, bool) {
 		}
 		return true
 	}
+	inBar := map[int]bool{}
+	tracked := trackedBarrierCalls(s)
 	for idx, ev0 := range s.Log {
 		ev := normStatus(ev0)
+		// the barrier calls themselves (coq/SliceBar.v): call, the caller's own loads, nil-return
+		if strings.HasPrefix(ev.Kind, "call:") && isBarrierCall(ev.Kind[5:]) && tracked[idx] {
+			inBar[ev.Tid] = true
+			emit(fmt.Sprintf("barcall %d", ev.Tid))
+			continue
+		}
+		if strings.HasPrefix(ev.Kind, "ret:") && isBarrierCall(ev.Kind[4:]) && inBar[ev.Tid] {
+			inBar[ev.Tid] = false
+			if strings.HasPrefix(ev.Val, "nil/") {
+				emit(fmt.Sprintf("barret %d", ev.Tid))
+			}
+			continue
+		}
 		if tg, ok := tags[idx]; ok {
 			// replay the mark's effect here, at the length word's change
 			ev = vt.Event{Tid: ev0.Tid, Site: 0, Kind: tg.kind, Obj: tg.job, Val: tg.val}
@@ -510,7 +532,11 @@ func projectDisp(s *vt.Sched, j int, qid string) ([]string, bool) {
 				}
 				wufStatus[t] = ""
 			}
-			emit("curload " + ev.Val)
+			if inBar[t] {
+				emit(fmt.Sprintf("barload %d %s", t, ev.Val))
+			} else {
+				emit("curload " + ev.Val)
+			}
 		case si.Field == "curProcessing":
 			emit("? " + ev.Kind + " on curProcessing at " + si.Name)
 		case si.Field == "status" && strings.HasPrefix(fn, "worker.") && ev.Kind == "store":
@@ -549,7 +575,11 @@ func projectDisp(s *vt.Sched, j int, qid string) ([]string, bool) {
 						emit("? WaitUntilFinished evaluated its condition without holding the worker mutex")
 					}
 				}
-				emit("stload " + ev.Val)
+				if inBar[t] {
+					emit(fmt.Sprintf("barst %d %s", t, ev.Val))
+				} else {
+					emit("stload " + ev.Val)
+				}
 			}
 		case si.Field == "status" && strings.HasPrefix(fn, "worker."):
 			emit("? " + ev.Kind + " on worker status at " + si.Name)
@@ -606,6 +636,66 @@ func projectDisp(s *vt.Sched, j int, qid string) ([]string, bool) {
 		}
 	}
 	return out, true
+}
+
+func isBarrierCall(name string) bool {
+	return name == "PauseAndWait" || name == "Stop" || name == "WaitAndStop"
+}
+
+// trackedBarrierCalls: index of the call mark -> the call's obligations are replayed on
+// coq/SliceBar.v. A barrier call that overlaps a Resume / Restart / Bind of another client has no
+// guarantee to give beyond the order in which the two took effect; from the first such call
+// on, the calls of the episode are not tracked.
+func trackedBarrierCalls(s *vt.Sched) map[int]bool {
+	type iv struct {
+		a, b int
+		bar  bool
+	}
+	var ivs []iv
+	open := map[string]int{} // tid:name -> index of the call mark
+	for idx, ev := range s.Log {
+		switch {
+		case strings.HasPrefix(ev.Kind, "call:"):
+			open[fmt.Sprintf("%d:%s", ev.Tid, ev.Kind[5:])] = idx
+		case strings.HasPrefix(ev.Kind, "ret:"):
+			k := fmt.Sprintf("%d:%s", ev.Tid, ev.Kind[4:])
+			if a, ok := open[k]; ok {
+				delete(open, k)
+				n := ev.Kind[4:]
+				if isBarrierCall(n) {
+					ivs = append(ivs, iv{a, idx, true})
+				} else if n == "Resume" || n == "Restart" || n == "Bind" {
+					ivs = append(ivs, iv{a, idx, false})
+				}
+			}
+		}
+	}
+	for k, a := range open { // calls that never returned
+		n := k[strings.Index(k, ":")+1:]
+		if isBarrierCall(n) {
+			ivs = append(ivs, iv{a, len(s.Log), true})
+		} else if n == "Resume" || n == "Restart" || n == "Bind" {
+			ivs = append(ivs, iv{a, len(s.Log), false})
+		}
+	}
+	taint := len(s.Log) + 1
+	for _, x := range ivs {
+		if !x.bar {
+			continue
+		}
+		for _, y := range ivs {
+			if !y.bar && y.a < x.b && x.a < y.b && x.a < taint {
+				taint = x.a
+			}
+		}
+	}
+	out := map[int]bool{}
+	for _, x := range ivs {
+		if x.bar && x.b < taint {
+			out[x.a] = true
+		}
+	}
+	return out
 }
 
 // writeWakeSlices emits the worker-level wake-up protocol of coq/SliceWake.v: every change of the
